@@ -41,6 +41,8 @@ def main() -> int:
             # a translator that cannot read the tree is reported by the property's check (broken tie)
             print(f"setup: translator {mod}: FAILED (left to the property's check)")
             traceback.print_exc(limit=2)
+    if "--translate-only" in sys.argv:
+        return 0
     try:
         p = subprocess.run(["lake", "build"], cwd=HERE / "lean", capture_output=True, text=True)
     except FileNotFoundError:
